@@ -111,8 +111,21 @@ func PropC03(c *vs.Case, f Factory, kind string) error {
 			env.W.SyncCache(scn.Cfg.ParentResource)
 			c.Class("parent-deleting")
 		}
+		hiddenRes := ""
+		if s > 0 && c.Prob(1, 6) {
+			// the API group of a declared child kind is momentarily missing from discovery (an aggregated API
+			// server restarting): the hook may not be shown a children map without that kind's entry
+			hiddenRes = scn.Cfg.Children[c.Int(len(scn.Cfg.Children))].Resource
+			env.W.Sim.SetHidden(hiddenRes, true)
+			env.W.Resources.VerifRefresh()
+			c.Class("child-kind-missing-from-discovery")
+		}
 		parentCached := env.W.CachedObject(scn.Cfg.ParentResource, scn.ParentNS(), scn.ParentName())
 		t := env.Sync()
+		if hiddenRes != "" {
+			env.W.Sim.SetHidden(hiddenRes, false)
+			env.W.Resources.VerifRefresh()
+		}
 		if t.Panic != "" {
 			return vs.Violf("C03/panic", "panic: %s", t.Panic)
 		}
